@@ -317,6 +317,31 @@ def rule_embed(ctx, R):
     R.check(tys == [("new_debug", ["std::string::String"])], "embed:quoted_display", "stack values are embedded in emitted source as Debug-quoted Display text (a String), never as a bare token: %s" % tys, b.span)
     tos = [t for bb in bodies for bi, t in bb.calls() if callee_name(t["f"], fb) == "alloc::string::ToString::to_string" or callee_name(t["f"], fb).endswith("ToString::to_string")]
     R.check(any("number::num::Num" in g for t in tos for g in t["f"]["gargs"]), "embed:display_of_num", "the embedded text is Num's Display rendering")
+    # every element of the stack, in order, unconditionally
+    names = [callee_name(t["f"], fb) for bb in bodies for _, t in bb.calls()]
+    SELECT = ("filter", "filter_map", "skip", "skip_while", "take", "take_while", "step_by", "rev", "dedup", "retain", "truncate", "pop", "remove", "flat_map", "zip", "chain", "cycle", "nth", "last", "first")
+    sel = sorted({n for n in names if n.rsplit("::", 1)[-1] in SELECT and ("iter" in n.lower() or "Vec" in n or "slice" in n)})
+    R.check(not sel, "embed:no_selection", "no selecting or reordering adapter is applied to the stack before it is embedded: %s" % sel, b.span)
+    cfg = normal_cfg(b)
+    roles = Roles(b, fb, param_roles={1: "P1"})
+    fmt_of = lambda bb: [bi for bi, t in bb.calls() if callee_name(t["f"], fb) in ("alloc::fmt::format", "std::fmt::Write::write_fmt", "core::fmt::Write::write_fmt")]
+    its = [(bi, roles.of_operand(t["args"][0], bi)) for bi, t in b.calls() if callee_name(t["f"], fb) == "core::iter::traits::collect::IntoIterator::into_iter"]
+    if cfg.back_edges():
+        src_ok = len(its) == 1 and its[0][1] in ("P1", "[T]::iter(P1)", "COPY(P1)")
+        ok = src_ok
+        if ok:
+            head = cfg.back_edges()[0][1]
+            appends = [bi for bi, t in b.calls() if callee_name(t["f"], fb).rsplit("::", 1)[-1] in ("push_str", "push", "write_fmt", "extend", "add_assign")]
+            ok = bool(appends) and not reaches_without(cfg, cfg.succ[head], head, cut_blocks=appends) and all(not reaches_without(cfg, [head], a_, cut_blocks=fmt_of(b)) for a_ in appends)
+        R.check(ok, "embed:every_element", "the loop runs over the whole stack (%s) and every iteration appends one formatted value" % [r for _, r in its], b.span)
+    else:
+        ret = [roles.of_origin(("call", callee_name(t["f"], fb), tuple(roles.org.of_operand(a, bi, "t") for a in t["args"]))) for bi, t in b.calls() if t["dest"]["l"] == 0 and not t["dest"]["proj"]]
+        ok = ret == ["Iterator::collect(Iterator::map([T]::iter(P1),CLOSURE))"]
+        for c in fb.closures_of(b):
+            ccfg = normal_cfg(c)
+            f = fmt_of(c)
+            ok = ok and bool(f) and not reaches_without(ccfg, [0], ccfg.returns, cut_blocks=f)
+        R.check(ok, "embed:every_element", "the whole stack is mapped element by element through the formatting closure and collected: %s" % ret, b.span)
 
 
 RULES = [
